@@ -1024,6 +1024,25 @@ def scenarios(rng, full):
     # joins of different counts
     S((3, 2, 1, 3, 1, 0), 0, ["init 0 R0", "copy 1 0", "mk 0 p0 R0 1 c:4", "st 0 p0 R0 c:%d" % a, "mk 1 p1 R0 2 c:4", "st 1 p1 R0 c:%d" % b, "join 2 0 1", "ld 2 i0 p0 R0"])
     S((3, 2, 1, 3, 1, 0), 0, ["init 0 R0", "mk 0 p0 R0 1 c:4", "copy 1 0", "st 0 p0 R0 c:%d" % a, "join 2 0 1", "st 2 p0 R0 c:%d" % b, "ld 2 i0 p0 R0"])
+    # weak stores of references into a region with several cells: objects of different sizes / allocation sites /
+    # tags, the bigger (or the other) one stored last; every cell loaded again; is_dereferenceable around both sizes
+    for G, nq, nu in (("Q0", 1, 0),) + ((("U0", 0, 1),) if full else ()):
+        s1, s2 = rng.sample([4, 8, 16, 40], 2)
+        o2 = rng.choice([0, 0, 4, 16]) if max(s1, s2) > 16 else 0
+        pre = ["init 0 R0", "init 0 %s" % G, "mk 0 p0 %s 1 c:24" % G, "gep 0 p1 %s p0 %s E 0 8" % (G, G),
+               "mk 0 p2 R0 2 c:%d" % s1, "mk 0 p3 R0 3 c:%d" % s2]
+        if o2 and s2 > o2:
+            pre.append("gep 0 p3 R0 p3 R0 E 0 %d" % o2)
+        if rng.random() < 0.5:
+            pre += ["tag 0 R0 p2 1", "tag 0 R0 p3 2"]
+        pre += ["st 0 p0 %s v:p2" % G, "st 0 p1 %s v:p3" % G]
+        if rng.random() < 0.3:
+            pre.append("st 0 p0 %s v:p2" % G)
+        pre += ["ld 0 p4 p0 %s" % G, "q_deref 0 p4 c:%d" % min(s1, s2), "q_deref 0 p4 c:%d" % (min(s1, s2) + 4), "q_deref 0 p4 c:%d" % max(s1, s2),
+                "ld 0 p5 p1 %s" % G, "q_deref 0 p5 c:%d" % (min(s1, s2) + 1), "q_deref 0 p5 c:%d" % max(1, max(s1, s2) - o2)]
+        if not full:      # the reduced model (profile "model") has no offset / size ghost variables
+            pre = [o for o in pre if not o.startswith("q_deref")]
+        S((2, 2, 1, 6, 1, nq), nu, pre)
     if full:
         # casts and unknown regions
         S((2, 2, 1, 3, 1, 0), 1, ["init 0 R0", "init 0 U0", "mk 0 p0 R0 1 c:4", "st 0 p0 R0 c:%d" % a, "mk 0 p1 U0 2 c:4", "st 0 p1 U0 c:%d" % b, "rcast 0 U0 R0", "ld 0 i0 p1 R0"])
